@@ -326,6 +326,12 @@ def insertEdge (e : Pt × Pt) : List (Pt × Pt) → List (Pt × Pt)
 
 def sortEdges (es : List (Pt × Pt)) : List (Pt × Pt) := (es.map normEdge).foldr insertEdge []
 
+/-- sorted, without repetitions: the *set* of undirected edges. Ring reconstruction and ring
+nesting after `find_boundary_lines` are not modelled (and may emit a ring twice, once as an
+exterior and once as an interior, when two rings touch), so what is compared is the set of edges
+that survive into the output rings. -/
+def edgeSet (es : List (Pt × Pt)) : List (Pt × Pt) := (sortEdges es).eraseDups
+
 /-- some triangle corner lies strictly inside an edge of another triangle (a non-conforming
 triangulation: that edge has no identical partner to be stitched with) -/
 def hasTJunction (ts : List Tri) : Bool :=
@@ -348,12 +354,12 @@ def handleStitch (inp out : List String) : String :=
       -- the stitching property is about triangulations: only those that tile are in its domain
       let tl := tilesClause .targetCoordinate (ts.map ringOf) g
       if tl != "" then skip ("triangulation-does-not-tile-" ++ tl) else
-      let modelEdges := sortEdges (findBoundaryLines (stitchLines ts))
+      let modelEdges := edgeSet (findBoundaryLines (stitchLines ts))
       match res with
       | none => reply false (if hasTJunction ts then "FAIL:stitch-error-t-junction-in-triangulation" else "FAIL:stitch-error")
           (shapeTags g ++ " via=" ++ which) "ok" "err"
       | some r =>
-        let implEdges := sortEdges ((parts r).areaSegs)
+        let implEdges := edgeSet ((parts r).areaSegs)
         let same := implEdges == modelEdges
         let tj := hasTJunction ts
         let prop := if specUnsigned r == specUnsigned g then "PASS"
